@@ -795,6 +795,9 @@ func (e *kvElection) StopWithContext(ctx context.Context, opts StopOptions) erro
 				zap.Duration("timeout", timeout),
 			)...,
 		)
+		if wasLeader && hasOnDemote {
+			e.notifyDemotedByFailedStop()
+		}
 		return fmt.Errorf("shutdown timeout exceeded: %v", timeout)
 	case <-ctx.Done():
 		log := e.getLogger()
@@ -803,6 +806,9 @@ func (e *kvElection) StopWithContext(ctx context.Context, opts StopOptions) erro
 				zap.Error(ctx.Err()),
 			)...,
 		)
+		if wasLeader && hasOnDemote {
+			e.notifyDemotedByFailedStop()
+		}
 		return ctx.Err()
 	}
 
@@ -889,6 +895,20 @@ func (e *kvElection) StopWithContext(ctx context.Context, opts StopOptions) erro
 	}
 
 	return nil
+}
+
+// notifyDemotedByFailedStop runs the OnDemote callback when a StopWithContext
+// that had cleared a standing claim gives up waiting. The stop did not complete,
+// but the leadership is gone all the same (the claim was cleared and the
+// election cancelled when the stop began), and no later Stop will report it:
+// it finds the claim already cleared.
+func (e *kvElection) notifyDemotedByFailedStop() {
+	e.mu.RLock()
+	onDemote := e.onDemote
+	e.mu.RUnlock()
+	if onDemote != nil {
+		go onDemote()
+	}
 }
 
 // ownsRecord reports whether the live leadership record still names this
